@@ -6,6 +6,10 @@ import CoreDhcp.Props.C04
 import CoreDhcp.Props.C05
 import CoreDhcp.Props.C06
 import CoreDhcp.Props.C07
+import CoreDhcp.Props.C11
+import CoreDhcp.Props.C12
+import CoreDhcp.Props.C13
+import CoreDhcp.Props.C15
 open CoreDhcp
 #print axioms C20_offset_exact
 #print axioms C20_offset_symm
@@ -34,3 +38,16 @@ open CoreDhcp
 #print axioms C06_D2_prefix_refuted
 #print axioms C07_alloc6
 #print axioms C07_alloc4
+#print axioms C11_holds
+#print axioms C11_never_answers_non_requests
+#print axioms C12_holds
+#print axioms C12_mirror
+#print axioms C13_order
+#print axioms C13_stop
+#print axioms C13_sends_last4
+#print axioms C13_sends_last6
+#print axioms C13_load_exact
+#print axioms C13_load_aborts
+#print axioms C13_load_succeeds
+#print axioms C15_holds
+#print axioms C15_has_interface
